@@ -85,7 +85,7 @@ func NewDG2(data []byte) (*DG2, error) {
 		return nil, fmt.Errorf("[NewDG2] error: %w", err)
 	}
 
-	rootNode := nodes.NodeByTag(DG2Tag)
+	rootNode := lookupRootNode(nodes, DG2Tag)
 
 	if !rootNode.IsValidNode() {
 		return nil, fmt.Errorf("[NewDG2] root node (%x) missing", DG2Tag)
